@@ -336,6 +336,9 @@ func genBundle(c *ctx, cached bool) {
 	if c.thorough {
 		n = 6000
 	}
+	if cached {
+		knownF7b(c, st)
+	}
 	for i := 0; i < n; i++ {
 		r := c.r.Fork()
 		w := newBWorld(r)
@@ -402,9 +405,14 @@ func genBundle(c *ctx, cached bool) {
 			w.caches[0] = bundle.NewVerificationCache(&loggingVerifier{w, w.resolver()}, ttl, cap)
 			rec(coqw.App("CNew", coqw.N(0), coqw.Bool(live), coqw.Nat(cap)), nil)
 		}
+		var hdrs []string
 		parse := func() uint64 {
 			s := newSlot()
 			hdr := randHeader(smallCache)
+			if cached && len(hdrs) > 0 && r.Bool() {
+				hdr = rng.Pick(r, hdrs) // the same header in several bundles: cache hits, aliasing
+			}
+			hdrs = append(hdrs, hdr)
 			ts := toksOf(hdr)
 			if r.P(1, 5) && !cached {
 				b, err := bundle.ParseBundleWithFilter(bLocs[0], hdr, bundle.KeepAll)
@@ -549,6 +557,43 @@ func genBundle(c *ctx, cached bool) {
 			OracleFail: oracle,
 		})
 	}
+}
+
+// knownF7b reproduces the recorded finding F7b on every run: two distinct valid discharges for one ticket,
+// header order different from their sorted order: the cache sorts the discharge list, direct verification does not.
+func knownF7b(c *ctx, st *cs.Stream) {
+	w := newBWorld(c.r.Fork())
+	m, _ := macaroon.New([]byte("k1"), bLocs[0], w.keys["k1"])
+	m.Add3P(w.tpKeys[bLocs[1]], bLocs[1])
+	tk := m.TicketsForThirdParty(bLocs[1])[0]
+	rd := resset.ActionRead
+	mk := func(cavs ...macaroon.Caveat) string {
+		_, dm, _ := macaroon.DischargeTicket(w.tpKeys[bLocs[1]], bLocs[1], tk)
+		dm.Add(cavs...)
+		s, _ := dm.String()
+		return s
+	}
+	da, db := mk(), mk(&rd)
+	if da > db {
+		da, db = db, da
+	}
+	ps, _ := m.String()
+	hdr := db + "," + da + "," + ps // header order is the reverse of the sorted order
+	direct, _ := bundle.ParseBundle(bLocs[0], hdr)
+	viaCache, _ := bundle.ParseBundle(bLocs[0], hdr)
+	s1, _ := direct.Verify(context.Background(), w.resolver())
+	s2, _ := viaCache.Verify(context.Background(), bundle.NewVerificationCache(w.resolver(), time.Hour, 8))
+	differs := len(s1) != len(s2)
+	if !differs && len(s1) == 1 {
+		differs = w.csID(s1[0]) != w.csID(s2[0])
+	}
+	cse := &cs.Case{Coq: "(KBun (mkTab [] [] [] []) [] [])", Class: "known/F7b", Nontrivial: true,
+		Desc: map[string]any{"what": "two valid discharges for one ticket in non-sorted header order: direct vs cached verification", "differs": differs, "header_tokens": 3}}
+	if differs {
+		cse.Known = "F7b"
+		cse.OracleFail = "cached verification merges a different discharge's caveats than direct verification"
+	}
+	st.Add(cse)
 }
 
 func b2i64x(b bool) int64 {
